@@ -1,7 +1,49 @@
-/- line-protocol handler for model "h1" (stub until its model is built) -/
+import LtVerif.Model.H1Parse
+import LtVerif.Model.H1Chunked
 namespace Driver
+open LtVerif LtVerif.B
+
+def hdrsCanon (hs : List (Bytes × Bytes)) : String :=
+  let nonEmpty := hs.filter fun (_, v) => !v.isEmpty
+  let ents := nonEmpty.map fun (k, v) => toHex k ++ "=" ++ toHex v
+  let sorted := ents.toArray.qsort (fun a b => a < b) |>.toList
+  if sorted.isEmpty then "-" else String.intercalate "," sorted
+
+def reqOutStr : ReqOut → String
+  | .incomplete => "incomplete"
+  | .blank => "blank"
+  | .skipV6 => "skip-v6"
+  | .err e => "err " ++ toString e
+  | .ok r t =>
+    "ok v" ++ toString r.version ++ " ka" ++ (if r.keepAlive then "1" else "0") ++
+    " m=" ++ toHex r.method ++ " t=" ++ toHex t.target ++ " p=" ++ toHex t.path ++
+    " q=" ++ toHex t.query ++ " h=" ++ (match r.host with | some h => toHex h | none => "none") ++
+    " len=" ++ toString r.bodyLen ++ " hdrs=" ++ hdrsCanon r.headers
 
 def h1Line : List String → String
+  | ["req", fl, mf, h] =>
+    match fl.toNat?, mf.toNat?, ofHex h with
+    | some f, some m, some b => reqOutStr (parseHead ⟨f⟩ m 80 b)
+    | _, _, _ => "bad-op"
+  | "chunked" :: ms :: mf :: segs =>
+    match ms.toNat?, mf.toNat?, segs.mapM ofHex with
+    | some msz, some mfl, some bs =>
+      let cfg : CkCfg := { maxSize := msz * 1024, maxField := mfl }
+      let st := bs.foldl (ckFeed cfg) {}
+      match st.mode with
+      | .err e => "err " ++ toString e
+      | .done => "done out=" ++ toHex st.out ++ " rest=" ++ toString st.after ++ " ka=" ++ (if st.ka then "1" else "0")
+      | m =>
+        let (te, rest) : Nat × Nat := match m with
+          | .hdr acc _ => (0, acc.length)
+          | .data n => (n + 2, 0)
+          | .crlf none => (2, 0)
+          | .crlf (some _) => (2, 1)
+          | .trailer acc _ _ => (0, acc.length)
+          | _ => (0, 0)
+        "more te=" ++ toString te ++ " out=" ++ toHex st.out ++ " rest=" ++ toString rest ++
+          " ka=" ++ (if st.ka then "1" else "0")
+    | _, _, _ => "bad-op"
   | _ => "bad-op"
 
 end Driver
